@@ -22,6 +22,9 @@ from engine.cfg import build_cfg, dominators
 from engine.util import is_self_attr, kwarg, const_value, enclosing_tests, enclosing_stmt, assign_targets
 from engine import extsrc
 from .common import reachable_functions, resolve_call, explicit_parent_call
+from engine.guards import cond_text
+from engine import norm as _norm
+from .sem import cond_want, expander, ctext, conds_at, guarded_values, norm_literal_guard, bind, stmt_of
 
 RULES = {
     "C06.a": "norm='L2' branch of fit/predict/transform is exactly KMeans.<same method>(self, ...) with every shared parameter forwarded; dispatchers agree on the norm set",
@@ -134,22 +137,44 @@ DIST_FUNCS = {
 }
 
 
-def _metric_of(call: ast.Call, short: str) -> Optional[str]:
+def _metric_name(v) -> str:
+    if not isinstance(v, str):
+        return "?"
+    if v in ("manhattan", "cityblock", "l1"):
+        return "L1"
+    if v in ("euclidean", "sqeuclidean", "l2"):
+        return "L2"
+    return "?"
+
+
+def _metrics_of(repo, fi, call: ast.Call, short: str):
+    """[(branch facts, 'L1'|'L2'|'?')] for a distance primitive"""
     if short in DIST_FUNCS:
-        return DIST_FUNCS[short]
+        return [(frozenset(), DIST_FUNCS[short])]
     if short in ("pairwise_distances_argmin_min", "pairwise_distances", "pairwise_distances_argmin", "cdist"):
         m = kwarg(call, "metric")
-        if m is None and short != "cdist" and len(call.args) >= 3:
-            m = None
-        v = const_value(m) if m is not None else "euclidean"
-        if not isinstance(v, str):
-            return "?"
-        if v in ("manhattan", "cityblock", "l1"):
-            return "L1"
-        if v in ("euclidean", "sqeuclidean", "l2"):
-            return "L2"
-        return "?"
+        if m is None:
+            pos = {"pairwise_distances": 2, "cdist": 2}.get(short)
+            if pos is not None and len(call.args) > pos:
+                m = call.args[pos]
+        if m is None:
+            return [(frozenset(), "L2")]
+        return [(conds, _metric_name(const_value(e))) for conds, e, _ in guarded_values(repo, fi, m, stmt_of(call))]
     return None
+
+
+def _guard_norm(conds) -> Optional[str]:
+    g = norm_literal_guard(conds)
+    if g is None:
+        return None
+    if g.startswith("!"):
+        neg = set(g[1:].upper().split(","))
+        if neg == {"L2"}:
+            return "L1"
+        if neg == {"L1"}:
+            return "L2"
+        return None
+    return g.upper()
 
 
 def check_b(ck, repo):
@@ -165,59 +190,67 @@ def check_b(ck, repo):
             if not isinstance(c, ast.Call):
                 continue
             short = src_of(c.func).split(".")[-1]
-            m = _metric_of(c, short)
-            if m is None:
+            ms = _metrics_of(repo, fi, c, short)
+            if ms is None:
                 continue
-            n += 1
-            g = _effective_norm(_norm_guards(c, fi.node))
             st = enclosing_stmt(c) if hasattr(c, "_parent") else c
-            if m == "?":
-                ck.unknown("C06.b", fi, st, "metric is not a literal")
-            elif g is not None:
-                ck.verdict(g == m, "C06.b", fi, st, f"{short}: metric {m} under guard norm == {g}", f"{short} computes {m} distances under the guard norm == '{g}': the {g} path mixes two geometries")
-            else:
-                ck.verdict(m == "L1", "C06.b", fi, st, f"{short}: Manhattan distances on an L1-only path", f"{short} computes {m} (Euclidean) distances on a path reachable from the L1 entry points without any guard on the norm")
+            here = conds_at(repo, fi, c)
+            for conds, m in ms:
+                n += 1
+                g = _guard_norm(here | conds)
+                if m == "?":
+                    ck.unknown("C06.b", fi, st, "metric is not a literal on some path")
+                elif g is not None:
+                    ck.verdict(g == m, "C06.b", fi, st, f"{short}: metric {m} where norm == {g}", f"{short} computes {m} distances where norm == '{g}': the {g} path mixes two geometries")
+                else:
+                    ck.verdict(m == "L1", "C06.b", fi, st, f"{short}: Manhattan distances on an L1-only path", f"{short} computes {m} (Euclidean) distances on a path reachable from the L1 entry points without any guard on the norm")
     ck.extra["l1_reachable_functions"] = [f.qualname.split(":")[1] for f in funcs]
     return n
 
 
+def _loop_term(x: ast.AST) -> Optional[str]:
+    """text of an `__it__(range(n_clusters), ...)` loop-variable term"""
+    if isinstance(x, ast.Call) and isinstance(x.func, ast.Name) and x.func.id == "__it__":
+        return ast.unparse(x)
+    return None
+
+
+def _cluster_selection(x: ast.AST) -> Optional[str]:
+    """X[labels == <loop term>]  ->  the loop term"""
+    if isinstance(x, ast.Subscript) and ast.unparse(x.value) == "X" and isinstance(x.slice, ast.Compare) and len(x.slice.ops) == 1 and isinstance(x.slice.ops[0], ast.Eq):
+        l, r = x.slice.left, x.slice.comparators[0]
+        for a, b in ((l, r), (r, l)):
+            if ast.unparse(a) == "labels" and _loop_term(b):
+                return _loop_term(b)
+    return None
+
+
 def check_c(ck, repo):
     cd = repo.func(MOD, "_centers_dense")
+    ex = expander(repo)
     # M-step
     med = [c for c in own_nodes(cd.node) if isinstance(c, ast.Call) and src_of(c.func) in ("numpy.median", "np.median")]
     if len(med) != 1:
         ck.violated("C06.c", cd, "numpy.median(...)", f"the M-step of the L1 k-means must be one coordinate-wise median; found {len(med)} median call(s)") if len(med) == 0 else ck.unknown("C06.c", cd, "numpy.median", "several medians")
     else:
         c = med[0]
-        ax = kwarg(c, "axis")
-        arg = c.args[0] if c.args else None
-        sel = None
-        if isinstance(arg, ast.Name):
-            for s in own_nodes(cd.node):
-                if isinstance(s, ast.Assign) and any(isinstance(t, ast.Name) and t.id == arg.id for t in s.targets):
-                    sel = s.value
-        elif arg is not None:
-            sel = arg
-        loopvar = None
-        for p in _parents(c):
-            if isinstance(p, ast.For) and isinstance(p.target, ast.Name):
-                loopvar = p.target.id
-                break
-        good_sel = isinstance(sel, ast.Subscript) and src_of(sel.value) == "X" and src_of(sel.slice) in (f"labels == {loopvar}", f"{loopvar} == labels")
+        st = stmt_of(c)
+        ax = kwarg(c, "axis") or (c.args[1] if len(c.args) > 1 else None)
+        sel = ex.norm_expr(c.args[0], cd, st) if c.args else None
+        lv = _cluster_selection(sel) if sel is not None else None
         ck.verdict(ax is not None and const_value(ax) == 0, "C06.c", cd, c, "median along axis 0 (coordinate-wise)", f"median axis is {src_of(ax) if ax is not None else None}, not 0: centres are not coordinate-wise medians")
-        ck.verdict(good_sel, "C06.c", cd, f"sub = {src_of(sel) if sel is not None else None}", f"rows of cluster {loopvar} selected by labels == {loopvar}", f"the median is taken over {src_of(sel) if sel is not None else None}, not over X[labels == {loopvar}]")
-        # stored into centers[loopvar]
+        ck.verdict(lv is not None and "range(n_clusters)" in lv, "C06.c", cd, f"selection {ast.unparse(sel)[:60] if sel is not None else None}", "the rows of cluster i are selected by labels == i, i over range(n_clusters)", f"the median is taken over {ast.unparse(sel) if sel is not None else None}, not over X[labels == i] for the cluster ids i")
+        # stored into centers[i]
         stored = False
+        want = _norm.dump(ex.norm_expr(c, cd, st), rename=False)
         for s in own_nodes(cd.node):
             if isinstance(s, ast.Assign) and isinstance(s.targets[0], ast.Subscript) and src_of(s.targets[0].value) == "centers":
                 idx = s.targets[0].slice
                 first = idx.elts[0] if isinstance(idx, ast.Tuple) else idx
-                if isinstance(first, ast.Name) and first.id == loopvar and isinstance(s.value, ast.Name):
-                    # value is the median result
-                    for s2 in own_nodes(cd.node):
-                        if isinstance(s2, ast.Assign) and any(isinstance(t, ast.Name) and t.id == s.value.id for t in s2.targets) and s2.value is c:
-                            stored = True
-        ck.verdict(stored, "C06.c", cd, f"centers[{loopvar}] = median", "median of cluster i stored as centre i", "the median is not stored into the centre of its own cluster")
+                rest_ok = not isinstance(idx, ast.Tuple) or all(isinstance(x, ast.Slice) and x.lower is None and x.upper is None and x.step is None for x in idx.elts[1:])
+                if _loop_term(ex.norm_expr(first, cd, s)) == lv and lv is not None and rest_ok and _norm.dump(ex.norm_expr(s.value, cd, s), rename=False) == want:
+                    stored = True
+        ck.verdict(stored, "C06.c", cd, "centers[i] = median of cluster i", "median of cluster i stored as centre i", "the median is not stored into the centre of its own cluster")
     # E-step re-run on the returned centres
     ll = repo.func(MOD, "_kmeans_single_lloyd")
     rets = [r for r in own_nodes(ll.node) if isinstance(r, ast.Return) and isinstance(r.value, ast.Tuple)]
@@ -237,8 +270,9 @@ def check_c(ck, repo):
             xarg = args[1] if len(args) > 1 else None
             ck.verdict(xarg is not None and src_of(xarg) == "X", "C06.c", ll, f"_labels_inertia(.., {src_of(xarg) if xarg is not None else None}, ..)", "final E-step is run on the training data", "final E-step is not run on X")
             # it must be executed whenever the centres moved since the labels were computed
-            tests = enclosing_tests(s, ll.node)
-            ck.verdict(all(src_of(t) in ("center_shift_total > 0", "center_shift_total != 0", "0 < center_shift_total") and pol for t, pol in tests), "C06.c", ll, f"guard of the final E-step: {[src_of(t) for t, _ in tests]}", "re-run whenever the last M-step moved the centres", "the final E-step is skipped on some path where the centres moved after the labels were computed")
+            conds = conds_at(repo, ll, s)
+            allowed = {cond_want(repo, "center_shift_total > 0", ll, s), cond_want(repo, "center_shift_total != 0", ll, s)}
+            ck.verdict(all(c in allowed for c in conds), "C06.c", ll, f"guard of the final E-step: {sorted(conds)}", "re-run whenever the last M-step moved the centres", "the final E-step is skipped on some path where the centres moved after the labels were computed")
     if not found:
         ck.violated("C06.c", ll, f"({lab}, {ine}) = _labels_inertia(.., {cen}, ..)", "no final E-step on the returned centres: after the last M-step labels_ and inertia_ refer to the previous centres")
 
@@ -253,51 +287,37 @@ def _parents(n):
 REDUCTIONS = {"median", "mean", "nanmedian", "nanmean", "average"}
 
 
+def _nonempty_facts(S: str):
+    """path facts that imply the selection S has at least one row"""
+    out = set()
+    for n in (f"({S}).shape[0]", f"len({S})", f"({S}).size"):
+        out |= {cond_text(f"{n} == 0", False), cond_text(f"{n} > 0"), cond_text(f"{n} >= 1"), cond_text(f"{n} < 1", False), cond_text(n)}
+    return out
+
+
 def check_d(ck, repo):
-    """reductions over `A[labels == i]` in a loop `for i in range(n_clusters)`"""
+    """reductions over `A[labels == i]` (i ranging over all cluster ids) are
+    executed only where the selection is known to be non-empty"""
     mi = repo.modules.get(MOD)
+    ex = expander(repo)
     n = 0
     for fi in repo.functions_of(mi):
-        for loop in [x for x in own_nodes(fi.node) if isinstance(x, ast.For)]:
-            if not (isinstance(loop.target, ast.Name) and isinstance(loop.iter, ast.Call) and isinstance(loop.iter.func, ast.Name) and loop.iter.func.id == "range"):
+        for c in own_nodes_incl_lambda(fi.node):
+            if not (isinstance(c, ast.Call) and src_of(c.func).split(".")[-1] in REDUCTIONS and c.args):
                 continue
-            lv = loop.target.id
-            for c in ast.walk(loop):
-                if not (isinstance(c, ast.Call) and src_of(c.func).split(".")[-1] in REDUCTIONS and c.args):
-                    continue
-                arg = c.args[0]
-                sel, selname = None, None
-                if isinstance(arg, ast.Name):
-                    selname = arg.id
-                    for s in ast.walk(loop):
-                        if isinstance(s, ast.Assign) and any(isinstance(t, ast.Name) and t.id == arg.id for t in s.targets):
-                            sel = s.value
-                else:
-                    sel = arg
-                if not (isinstance(sel, ast.Subscript) and isinstance(sel.slice, ast.Compare) and lv in {x.id for x in ast.walk(sel.slice) if isinstance(x, ast.Name)}):
-                    continue
-                n += 1
-                # dominated by an emptiness test of the selection inside the loop body
-                guarded = False
-                texts = set()
-                if selname:
-                    texts |= {f"{selname}.shape[0] == 0", f"len({selname}) == 0", f"{selname}.shape[0] > 0", f"len({selname}) > 0", f"{selname}.size == 0", f"{selname}.size > 0", f"not len({selname})", f"{selname}.shape[0] != 0", f"{selname}.shape[0] < 1", f"{selname}.shape[0] >= 1", f"{selname}.shape[0]", f"len({selname})"}
-                stc = enclosing_stmt(c)
-                # (1) enclosing positive test
-                for t, pol in enclosing_tests(c, fi.node):
-                    ts = src_of(t)
-                    if ts in texts or "any(" in ts:
-                        guarded = True
-                # (2) earlier sibling `if <empty>: continue` in the same loop body
-                for s in loop.body:
-                    if s.lineno >= stc.lineno:
-                        break
-                    if isinstance(s, ast.If) and (src_of(s.test) in texts or src_of(s.test).replace("not ", "") in texts or "any(" in src_of(s.test)) and any(isinstance(x, (ast.Continue, ast.Break, ast.Raise)) for x in s.body):
-                        guarded = True
-                if guarded:
-                    ck.holds("C06.d", fi, stc, f"reduction over the rows of cluster {lv} is guarded by an emptiness test")
-                else:
-                    ck.violated("C06.d", fi, stc, f"{src_of(c.func)} over {src_of(sel)[:40]} runs for every cluster id, empty clusters included: the centre of an empty cluster becomes NaN and fit fails or returns NaN centres")
+            st = stmt_of(c)
+            sel = ex.norm_expr(c.args[0], fi, st)
+            if not (isinstance(sel, ast.Subscript) and isinstance(sel.slice, ast.Compare) and any(_loop_term(x) and "range(" in _loop_term(x) for x in ast.walk(sel.slice))):
+                continue
+            n += 1
+            S = ast.unparse(_norm.canon(sel, rename=False))
+            M = ast.unparse(_norm.canon(sel.slice, rename=False))
+            facts = _nonempty_facts(S) | {cond_text(f"({M}).any()"), cond_text(f"({M}).sum() > 0"), cond_text(f"({M}).sum() == 0", False), cond_text(f"numpy.any({M})"), cond_text(f"numpy.count_nonzero({M}) > 0")}
+            conds = conds_at(repo, fi, c)
+            if any(f in conds for f in facts):
+                ck.holds("C06.d", fi, st, "reduction over the rows of a cluster is executed only where the selection is non-empty")
+            else:
+                ck.violated("C06.d", fi, st, f"{src_of(c.func)} over {S[:50]} runs for every cluster id, empty clusters included: the centre of an empty cluster becomes NaN and fit fails or returns NaN centres")
     return n
 
 
